@@ -323,14 +323,29 @@ def run_dag(dag, script, funcs, nsteps):
 
 
 def function_symbols(dag):
-    """Names in call position anywhere in the description (call statements and calls nested in expressions)."""
-    from vf.sexpr import from_pym, variables
-    out = set()
+    """Counter of the names in call position anywhere in the description (call statements and calls nested in
+    expressions)."""
+    from collections import Counter
+    from vf.sexpr import from_pym
+    out = Counter()
+
+    def walk(e):
+        if not isinstance(e, list) or not e:
+            return
+        if e[0] == "call":
+            out[e[1]] += 1
+            for x in e[2]:
+                walk(x)
+            for v in (e[3] if len(e) > 3 else {}).values():
+                walk(v)
+            return
+        for x in e[1:]:
+            walk(x)
     for ph in dag.phases.values():
         for st in ph.statements:
             fid = getattr(st, "function_id", None)
             if isinstance(fid, str):
-                out.add(fid)
+                out[fid] += 1
             seen = []
 
             def grab(e, seen=seen):
@@ -342,29 +357,48 @@ def function_symbols(dag):
                 st.map_expressions(grab)
             for e in seen:
                 try:
-                    variables(from_pym(e), None, out)
+                    walk(from_pym(e))
                 except (ValueError, TypeError):
                     pass
     return out
+
+
+def variable_names(dag):
+    out = set()
+    for ph in dag.phases.values():
+        for st in ph.statements:
+            out |= set(st.get_read_variables()) | set(st.get_written_variables())
+    return out
+
+
+def _base(n):
+    import re
+    return re.sub(r"(_\d+)+$", "", n)
 
 
 def differential(a, b, d1, d2, fused, rec, wit):
     funcs = prog.python_functions(a)
     funcs.update(prog.python_functions(b))
     # the functions a description calls are not among its identifiers: fusion renames variables, never functions
-    stray = function_symbols(fused) - function_symbols(d1) - function_symbols(d2)
+    want = function_symbols(d1) + function_symbols(d2)
+    got = function_symbols(fused)
     rec.count("fused_descriptions_whose_called_functions_were_compared")
-    if stray:
-        names = set(funcs)
-        like = sorted(s_ for s_ in stray if any(s_.startswith(f + "_") and s_[len(f) + 1:].isdigit() for f in names))
-        if like and len(like) == len(stray):
+    extra, missing = got - want, want - got
+    if extra or missing:
+        # (the open finding: the renamed symbol belongs to a function registered under a plain name that BOTH
+        # methods also use for a per-step variable -- a legitimate clash of variables, carried over to the call)
+        clash = {n for n in variable_names(d1) & variable_names(d2) if not n.startswith("<")}
+        known = (bool(missing) and all(m in clash for m in missing)
+                 and sum(extra.values()) == sum(missing.values())
+                 and all(any(_base(e) == _base(m) for m in missing) for e in extra))
+        if known:
             rec.violation("fusion-renames-function-symbol-of-nested-call-named-like-a-clashing-temporary",
-                          f"the fused description calls {like}, which neither method calls: the function symbol of a "
-                          f"call nested in an expression was renamed along with the second method's temporary of "
-                          f"the same name", wit)
+                          f"the fused description calls {dict(extra)} instead of {dict(missing)}: the function symbol "
+                          f"of a call nested in an expression was renamed along with the second method's temporary "
+                          f"of the same name", wit)
         else:
-            rec.violation("fused-description-calls-function-neither-method-calls",
-                          f"the fused description calls {sorted(stray)}", wit)
+            rec.violation("fused-description-calls-other-functions-than-the-two-methods",
+                          f"calls added {dict(extra)}, calls lost {dict(missing)}", wit)
         return True
     n = a["run"]["max_steps"]
     try:
